@@ -27,6 +27,33 @@ from twisted.test import iosim
 
 from harness.sim.world import World
 
+import signal
+import threading
+
+
+class LoopGuard(Exception):
+    """dataReceived did not return within the time limit (an endless framing loop)."""
+
+
+@contextlib.contextmanager
+def time_limit(seconds=2.0):
+    """Bound one call into the implementation (only where signals can be delivered: main thread)."""
+    if threading.current_thread() is not threading.main_thread():
+        yield
+        return
+
+    def on_alarm(signum, frame):
+        raise LoopGuard("no return within %.1fs" % seconds)
+
+    old = signal.signal(signal.SIGALRM, on_alarm)
+    signal.setitimer(signal.ITIMER_REAL, seconds)
+    try:
+        yield
+    finally:
+        signal.setitimer(signal.ITIMER_REAL, 0)
+        signal.signal(signal.SIGALRM, old)
+
+
 _active = []  # stack of objects with .on_write(transport, data) / .on_lose(transport)
 
 
@@ -296,7 +323,8 @@ class BCRun(object):
                 self.log.append("badOp")
             else:
                 try:
-                    self.cur.ct.bufferReceived(data)
+                    with time_limit():
+                        self.cur.ct.bufferReceived(data)
                 except Exception as e:  # the reactor logs it and drops the connection
                     n = e.__class__.__name__
                     self.log.append("raise underflow" if n == "BufferUnderflowError" else "raise other:" + n)
@@ -484,7 +512,11 @@ class FrameRun(object):
 
     def feed(self, data):
         n0 = len(self.out)
-        self.p.dataReceived(data)
+        try:
+            with time_limit():
+                self.p.dataReceived(data)
+        except Exception as e:  # never with the framing as modelled: reported as a difference
+            self.out.append("raise %s" % e.__class__.__name__)
         return self.out[n0:] + ["buffered %d" % len(self.p._unprocessed)]
 
 
@@ -549,7 +581,11 @@ class BootRun(object):
             if self.lost or self.t.disconnecting:
                 self.log.append("badOp")
             else:
-                self.t.bufferReceived(unhx(w[1]))
+                try:
+                    with time_limit():
+                        self.t.bufferReceived(unhx(w[1]))
+                except Exception as e:
+                    self.log.append("raise %s" % e.__class__.__name__)
         elif op == "bs-lost":
             if self.lost:
                 self.log.append("badOp")
